@@ -353,4 +353,14 @@ theorem fromString_toString (deep : Bool) (c : Cap) (hwf : c.wf = true) (hctx : 
     simp only [fromString, fromStringWith, stripAlleged_dir, dispatch_dir, hctx, if_true, hi]
   | unknown u e => simp [Cap.wf] at hwf
 
+
+theorem ctxAllows_false (k : FileKind) : ctxAllows false k = true := by cases k <;> rfl
+
+/-- an `UnknownURI` returned by `from_string` carries the original string (prefix included) -/
+theorem fromString_unknown_keeps (deep : Bool) (u u' : Bytes) (e : Option Err) (h : fromString deep u = .unknown u' e) :
+    u' = u := by
+  simp only [fromString, fromStringWith] at h
+  split at h <;> (try split at h) <;> (try split at h) <;>
+    first | (injection h with h1 h2; exact h1.symm) | (cases h)
+
 end Tahoe.Uri
